@@ -131,7 +131,7 @@ Definition evs_for (es : list ev) (kind t : Z) : list ev :=
 
 Definition expected_out (o : Z) (got : Z) : bool :=
   if o <? 0 then got =? 0
-  else if o mod 10 <? NOUTS then got =? o
+  else if o mod 10 <? nouts (o / 10) then got =? o
   else (got =? o) || (got =? 0).
 
 Fixpoint outs_ok (body outs : list Z) : bool :=
